@@ -4,6 +4,9 @@
 cd /verif || exit 2
 PATCHES=${@:-$(ls benign/*.diff)}
 TMP=$(mktemp -d /tmp/benmx.XXXX)
+# the checks run from a snapshot of the committed /verif, so that the working tree may be edited meanwhile
+VSNAP=$TMP/verif; mkdir -p $VSNAP; git -C /verif archive HEAD | tar -x -C $VSNAP
+export VSNAP
 CHECKS=$(python3 -c "import json;print(' '.join(c['property_id'] for c in json.load(open('MANIFEST.json'))['checks']))")
 run_one() {
   p=$1; name=$(basename $p .diff); wt=$TMP/wt-$name
@@ -11,13 +14,24 @@ run_one() {
   git -C $wt apply /verif/$p || { echo -e "$name\t-\tPATCH-DOES-NOT-APPLY"; git -C /repo worktree remove --force $wt; return; }
   for c in $CHECKS; do
     log=$TMP/$name-$c.log
-    VERIF_REPO=$wt VERIF_EVIDENCE_DIR=$TMP/ev-$name VERIF_REPLAY_DIR=$TMP/rp-$name /verif/check $c --tier quick > $log 2>&1; rc=$?
+    VERIF_REPO=$wt VERIF_EVIDENCE_DIR=$TMP/ev-$name VERIF_REPLAY_DIR=$TMP/rp-$name $VSNAP/check $c --tier quick > $log 2>&1; rc=$?
     echo -e "$name\t$c\texit=$rc\t$(grep -A1 '^VIOLATION' $log | grep monitor= | head -1 | sed 's/^ *//' | cut -c1-200)$(grep -E '^ERROR' $log | head -1 | cut -c1-150)"
   done
   git -C /repo worktree remove --force $wt
 }
 export -f run_one; export TMP CHECKS
-printf '%s\n' $PATCHES | xargs -P 2 -I{} bash -c 'run_one {}' > /verif/benign/RESULTS.tsv.new
-sort /verif/benign/RESULTS.tsv.new > /verif/benign/RESULTS.tsv; rm -f /verif/benign/RESULTS.tsv.new
+printf '%s\n' $PATCHES | xargs -P 3 -I{} bash -c 'run_one {}' > /verif/benign/RESULTS.tsv.new
+# merge: rows of the patches just run replace the old ones
+touch /verif/benign/RESULTS.tsv; python3 - /verif/benign/RESULTS.tsv /verif/benign/RESULTS.tsv.new <<'PY'
+import sys
+key=lambda l: tuple(l.split('\t')[:2])
+old={key(l):l for l in open(sys.argv[1]) if l.strip()}
+new={key(l):l for l in open(sys.argv[2]) if l.strip()}
+names={k[0] for k in new}
+old={k:v for k,v in old.items() if k[0] not in names}
+old.update(new)
+open(sys.argv[1],'w').write(''.join(old[k] for k in sorted(old)))
+PY
+rm -f /verif/benign/RESULTS.tsv.new
 git -C /repo worktree prune; rm -rf $TMP
 grep -v 'exit=0' /verif/benign/RESULTS.tsv; echo "non-silent: $(grep -vc 'exit=0' /verif/benign/RESULTS.tsv) of $(wc -l < /verif/benign/RESULTS.tsv)"
